@@ -313,3 +313,28 @@ Lemma index_before_record_run :
   map out (snd s) = [[RDeleted; RErr EStorage; RCreated 1]; [RCreated 2]; [RRouted 1 host_a 2 2 22]] /\
   idx (fst s) host_a = Some 2 /\ recs (fst s) 1 = None.
 Proof. vm_compute. repeat split; reflexivity. Qed.
+
+(* ---- the three lookup sources in one history: "a.t.io" is owned in the repository by client 1 (then made inactive), "b.t.io"
+   exists only in the legacy registry (client 7), "c.t.io" only in cloud control (client 8, revoked) ------------------------ *)
+Definition legacy_reg : name -> option pmap :=
+  fun n => if name_eqb n (full_domain nm_b nm_base)
+           then Some {| p_id := 71; p_client := 7; p_target := 701; p_active := true; p_revoked := false; p_exp := 0 |}
+           else if name_eqb n host_a
+           then Some {| p_id := 72; p_client := 7; p_target := 702; p_active := true; p_revoked := false; p_exp := 0 |}
+           else None.
+Definition legacy_cloud : name -> option pmap :=
+  fun n => if name_eqb n (full_domain [99] nm_base)
+           then Some {| p_id := 81; p_client := 8; p_target := 801; p_active := true; p_revoked := true; p_exp := 0 |}
+           else None.
+Definition sources_threads : list thr :=
+  [ init_thr 1 [OCreate nm_a nm_base 11; OLookup host_a_port 5; OUpdate 0 StInactive 0 12; OLookup host_a 5] [];
+    init_thr 9 [OLookup (full_domain nm_b nm_base ++ [58; 56; 48]) 5; OLookup (full_domain [99] nm_base) 5; OLookup [91; 58; 58; 49; 93] 5] [] ].
+
+(* the repository answers for its own name and — once the mapping is inactive — rejects WITHOUT falling through to the
+   registry's entry of another client for that name; names the repository does not hold are answered by the registry, then
+   cloud control (revoked: rejected); an IPv6 literal resolves to nothing *)
+Lemma three_sources_run :
+  let s := drun true true true true legacy_reg legacy_cloud empty_store sources_threads (repeat 0 12 ++ repeat 1 6)%nat in
+  map out (snd s) = [[RErr EUnavailable; RUpdated; RRouted 1 host_a_port 1 1 11; RCreated 1];
+                     [RErr ENotFound; RErr EForbidden; RRouted 2 (full_domain nm_b nm_base ++ [58; 56; 48]) 71 7 701]].
+Proof. vm_compute. reflexivity. Qed.
